@@ -1103,8 +1103,8 @@ func Main(prop, level string, rule string, assumptions ...string) {
 	r.Finish()
 }
 
-// reportQuarantine records which corpus cells could not be generated / compiled in this run (they
-// are C16's verdict; here they are listed so that nobody mistakes them for covered).
+// reportQuarantine records which corpus cells could not be generated / compiled in this run: listed in the evidence
+// and reported as violations (the other cells are still checked, so one broken cell does not hide the rest).
 func reportQuarantine(r *ev.Run) {
 	p := os.Getenv("VERIF_GEN_COMPILE")
 	if p == "" {
@@ -1118,6 +1118,8 @@ func reportQuarantine(r *ev.Run) {
 		Runtime, File string
 		Generated     bool
 		Compiles      *bool
+		GenError      string   `json:"gen_error"`
+		CompileErrors []string `json:"compile_errors"`
 	}
 	if json.Unmarshal(b, &comp) != nil {
 		return
@@ -1126,6 +1128,11 @@ func reportQuarantine(r *ev.Run) {
 	for _, c := range comp {
 		if !c.Generated || c.Compiles == nil || !*c.Compiles {
 			q = append(q, c.Runtime+"/"+c.File)
+			// The property quantifies over every message type of the corpus. A cell whose fast-marshal code cannot be
+			// generated or does not compile has no Size/Marshal/Unmarshal to hold the property: that is a violation
+			// here as well (C16 names the cause), not a silent reduction of the corpus.
+			r.Fail(fmt.Sprintf("%s/corpus-cell-has-no-usable-generated-code/%s/%s", r.ID, c.Runtime, c.File), c.Runtime+"/"+c.File,
+				map[string]any{"generator_error": c.GenError, "compile_errors": c.CompileErrors, "generator_options": strings.TrimSpace(os.Getenv("VERIF_GEN_OPTS"))})
 		} else {
 			linked = append(linked, c.Runtime+"/"+c.File)
 		}
